@@ -56,7 +56,10 @@ def configs(tier):
 
 def params(cfg):
     if cfg['kind'] in ('as',):
-        return [('wvl', {'pos': True}), ('dx', {'pos': True}), ('z', {}), ('z1', {}), ('z2', {})]
+        # wavelengths are microns and spacings millimetres: distances of the order of 10^5 mm are needed for phases of order one, and with them
+        # for counterexamples that show above the replay tolerance
+        return [('wvl', {'pos': True}), ('dx', {'pos': True}), ('z', {'lo': -300000, 'hi': 300000}), ('z1', {'lo': -300000, 'hi': 300000}),
+                ('z2', {'lo': -300000, 'hi': 300000})]
     if cfg['kind'] == 'wf':
         return [('wvl', {'pos': True}), ('dx', {'pos': True}), ('efl', {'pos': True}), ('z', {})]
     return []
